@@ -26,6 +26,7 @@ func init() {
 	vRegister("H14_large", H14_large)
 	vRegister("H16_fields", H16_fields)
 	vRegister("H16_lockset", H16_lockset)
+	vRegister("H14_metrics", H14_metrics)
 	vRegister("H10_vec", H10_vec)
 	vNativeResetHooks = append(vNativeResetHooks, faiss.VerifReset)
 }
@@ -1010,4 +1011,54 @@ func H16_lockset() {
 	for _, vi := range open {
 		vi.Close()
 	}
+}
+
+// H14_metrics: two vector fields with different similarity metrics in one segment (every ordered pair of
+// distinct metrics): each field is searched and scored with its own metric, whichever field the builder
+// happens to write first (the builder walks its field map in Go's random order; the interpreter walks maps in
+// insertion order and, in the reverse-map runs, in reverse insertion order).
+func H14_metrics() {
+	pair := vChoice("pair", 6)
+	su := vSims[pair/2]
+	sv := vSims[(pair/2+1+pair%2)%3]
+	docs := []index.Document{
+		&vDoc{id: "d0", fields: []index.Field{vIDField("d0"), &vVecField{name: "u", vec: vCatalogue[4], sim: su}, &vVecField{name: "v", vec: vCatalogue[0], sim: sv}}},
+		&vDoc{id: "d1", fields: []index.Field{vIDField("d1"), &vVecField{name: "u", vec: vCatalogue[3], sim: su}, &vVecField{name: "v", vec: vCatalogue[1], sim: sv}}},
+		&vDoc{id: "d2", fields: []index.Field{vIDField("d2"), &vVecField{name: "v", vec: vCatalogue[4], sim: sv}}},
+	}
+	if vBool("uLast") {
+		// (field u first seen after field v: the other insertion order of the builder's field map)
+		docs[0], docs[2] = docs[2], docs[0]
+	}
+	vecs := map[string][]sVec{}
+	for d, doc := range docs {
+		for _, f := range doc.(*vDoc).fields {
+			if vf, ok := f.(*vVecField); ok {
+				vecs[vf.name] = append(vecs[vf.name], sVec{uint64(d), vf.vec})
+			}
+		}
+	}
+	var z ZapPlugin
+	segI, _, err := z.newWithChunkMode(docs, DefaultChunkMode)
+	vAssert(err == nil, "build")
+	var seg segment.Segment = segI
+	if vBool("reopen") {
+		vAssert(segI.(*SegmentBase).Persist(vP("mx.zap")) == nil, "persist")
+		seg, err = z.Open(vP("mx.zap"))
+		vAssert(err == nil, "open")
+	}
+	for _, f := range []string{"u", "v"} {
+		sim := map[string]string{"u": su, "v": sv}[f]
+		vi, err := seg.(segment.VectorSegment).InterpretVectorIndex(f, false, nil)
+		vAssert(err == nil && vi != nil, "interpret")
+		for qi := 0; qi < 2; qi++ {
+			q := vCatalogue[[]int{1, 4}[qi]]
+			pl, err := vi.Search(q, 2, nil)
+			vAssert(err == nil, "search-err")
+			sCheckVecResult(pl, vecs[f], sim, q, 2, func(uint64) bool { return true }, f+"-")
+		}
+		vi.Close()
+	}
+	vAssert(seg.Close() == nil, "close")
+	vRunSpawned()
 }
